@@ -31,6 +31,7 @@ TARGETS = {
     # Class.method: static methods, and instance methods that only READ fields of self (the object is a value)
     "wallet_utils": ["Bip32Path.is_hardened", "Bip32Path.is_private", "Bip32Path.convert_hardened"],
     "script": ["Script.raw_serialize", "Script.serialize"],
+    "__main__": ["value_in_interval", "address_index", "account_index", "extended_key", "mnemonic", "bip39_seed", "entropy_hex"],
 }
 # external primitives: name -> (params, expected source of the body).  Their semantics is a parameter of the theorems.
 EXTERNS = {
@@ -38,7 +39,7 @@ EXTERNS = {
     "helper.sha256": (["s"], "return hashlib.sha256(s).digest()"),
     "helper.hash160": (["s"], "return ripemd160(hashlib.sha256(s).digest())"),
 }
-EXN = {"IndexError", "TypeError", "ValueError", "OverflowError", "ZeroDivisionError", "RuntimeError", "KeyError"}
+EXN = {"IndexError", "TypeError", "ValueError", "OverflowError", "ZeroDivisionError", "RuntimeError", "KeyError", "ArgumentError"}
 BINOPS = {ast.Add: "Add", ast.Sub: "Sub", ast.Mult: "Mul", ast.FloorDiv: "FloorDiv", ast.Mod: "Mod",
           ast.LShift: "LShift", ast.RShift: "RShift", ast.BitAnd: "BitAnd", ast.BitOr: "BitOr",
           ast.BitXor: "BitXor", ast.Pow: "Pow"}
@@ -269,6 +270,11 @@ class FunTrans:
                 cval(self.mod.consts[e.id])
                 self.world.use_global(self.mod.name, e.id)
                 return "(EGlob %s)" % cstr("%s.%s" % (self.mod.name, e.id))
+            imp = self.mod.imports.get(e.id)
+            if imp and imp[0] == "from" and imp[2] in self.world.mod(imp[1]).consts:
+                cval(self.world.mod(imp[1]).consts[imp[2]])
+                self.world.use_global(imp[1], imp[2])
+                return "(EGlob %s)" % cstr("%s.%s" % (imp[1], imp[2]))
             raise Untranslatable("free name %s" % e.id)
         if isinstance(e, ast.Attribute):
             if isinstance(e.value, ast.Name) and e.value.id == "self" and self.kind == "instance" and isinstance(e.ctx, ast.Load):
@@ -458,10 +464,12 @@ class FunTrans:
                 raise Untranslatable("raise form")
             x = st.exc
             name = x.func.id if isinstance(x, ast.Call) and isinstance(x.func, ast.Name) else (x.id if isinstance(x, ast.Name) else None)
+            if isinstance(x, ast.Call) and isinstance(x.func, ast.Attribute) and ast.unparse(x.func) == "argparse.ArgumentError":
+                name = "ArgumentError"
             if name not in EXN:
                 raise Untranslatable("raise of %s" % ast.unparse(x))
             if isinstance(x, ast.Call):
-                for a in x.args:                                                # message: only total formatting is dropped
+                for a in list(x.args) + [k.value for k in x.keywords]:          # message: only total formatting is dropped
                     self.check_message(a)
             return "(SRaise %s)" % name
         if isinstance(st, ast.Break):
@@ -471,10 +479,25 @@ class FunTrans:
         raise Untranslatable("statement %s" % type(st).__name__)
 
     def check_message(self, a):
-        ok = isinstance(a, ast.Constant) or \
-            (isinstance(a, ast.Call) and isinstance(a.func, ast.Attribute) and a.func.attr == "format"
-             and isinstance(a.func.value, ast.Constant)) or isinstance(a, ast.JoinedStr)
-        if not ok:
+        """the message of an exception is dropped; admitted only when building it cannot fail or have an effect:
+        constants, names, "..".format(args) / ", ".join(str(i) for i in NAME) over such arguments, f-strings"""
+        def total(x):
+            if isinstance(x, (ast.Constant, ast.Name, ast.JoinedStr)):
+                return True
+            if isinstance(x, ast.Subscript) and isinstance(x.slice, ast.Slice):          # slicing never raises on str/bytes/list
+                return total(x.value) and all(b is None or isinstance(b, ast.Constant) or (isinstance(b, ast.UnaryOp) and isinstance(b.operand, ast.Constant))
+                                              for b in (x.slice.lower, x.slice.upper)) and x.slice.step is None
+            if isinstance(x, ast.Call) and self.resolve_callee(x.func) in EXTERNS and not x.keywords:   # hashing primitives are total on bytes
+                return all(total(y) for y in x.args)
+            if isinstance(x, ast.Call) and isinstance(x.func, ast.Attribute) and x.func.attr == "format" and isinstance(x.func.value, ast.Constant):
+                return all(total(y) for y in x.args) and not x.keywords
+            if isinstance(x, ast.Call) and isinstance(x.func, ast.Attribute) and x.func.attr == "join" and isinstance(x.func.value, ast.Constant) \
+                    and len(x.args) == 1 and isinstance(x.args[0], ast.GeneratorExp):
+                g = x.args[0]
+                return len(g.generators) == 1 and isinstance(g.generators[0].iter, ast.Name) and not g.generators[0].ifs \
+                    and isinstance(g.elt, ast.Call) and isinstance(g.elt.func, ast.Name) and g.elt.func.id == "str"
+            return False
+        if not total(a):
             raise Untranslatable("exception message %s" % ast.unparse(a))
 
     def check_alias(self):
